@@ -42,11 +42,18 @@ Definition observe (st : state) (e : oexpr) : tree := obs FUEL (hp st) (oval st 
    NOT written through ("other": true = A), whether an explicit reference ties the two names, and
    the four snapshots the implementation printed (A before, B before, A after, B after)
    failing clauses: 1 = model/implementation disagree on a snapshot;
-                    2 = the other name's snapshot changed although no reference was taken *)
+                    2 = the other name's snapshot changed although no reference was taken;
+                    3 = the other name's KEY-TYPE-EXACT snapshot changed (the keys a foreach yields
+                        turned from ints into numeric strings or back) although no reference was
+                        taken.  r_o0 / r_o1 are the other name's snapshots before / after with keys
+                        exactly as printed (TKS "0" for a string key "0"); the i_* snapshots have
+                        canonical integer strings normalised to TKI, which is the model's abstraction
+                        of ZVal.Name. *)
 Record case := {
   c_pre : list stmt; c_mut : list stmt; c_a : oexpr; c_b : oexpr;
   c_other_is_a : bool; c_ref : bool;
-  i_a0 : tree; i_b0 : tree; i_a1 : tree; i_b1 : tree }.
+  i_a0 : tree; i_b0 : tree; i_a1 : tree; i_b1 : tree;
+  r_o0 : tree; r_o1 : tree }.
 
 Definition check_case (c : case) : list nat :=
   let st0 := run (c_pre c) state0 in
@@ -57,7 +64,8 @@ Definition check_case (c : case) : list nat :=
   let other_same :=
     if c_other_is_a c then tree_eqb (i_a0 c) (i_a1 c) else tree_eqb (i_b0 c) (i_b1 c) in
   (if ok_model then [] else [1%nat]) ++
-  (if other_same || c_ref c then [] else [2%nat]).
+  (if other_same || c_ref c then [] else [2%nat]) ++
+  (if tree_eqb (r_o0 c) (r_o1 c) || c_ref c then [] else [3%nat]).
 
 (* what the model itself predicts for the other name (used by the check to key findings) *)
 Definition model_leaks (c : case) : bool :=
